@@ -383,8 +383,14 @@ def prepare_staged(hyps, opt, goal, cands=()):
     except z3.Z3Exception:
         pass
     for ci, cand in enumerate(cands):
-        allh = _subst(list(hyps) + list(opt or []), cand)
-        texts[f"cand{ci}"] = (to_smt2(allh, _subst([goal], cand)[0]), cand)
+        if isinstance(cand, dict):
+            allh = _subst(list(hyps) + list(opt or []), cand)
+            texts[f"cand{ci}"] = (to_smt2(allh, _subst([goal], cand)[0]), cand)
+        else:
+            # extra hypotheses pinning uninterpreted inputs (e.g. "every rotation of the batch is the identity")
+            extra, label = cand
+            g2, _sk2 = skolemize_goal(goal)
+            texts[f"cand{ci}"] = (to_smt2(list(hyps) + list(opt or []) + list(extra), g2), dict(label))
     if opt:
         texts["all+opt"] = to_smt2(list(hyps) + list(opt), goal)
     for level in (0, 1):
